@@ -177,6 +177,11 @@ func newC19Fixtures() *c19Fixtures {
 	uFew.Canon, uFew.Profile = c19UnregisteredName, sp(c19UnregisteredName)
 	f.absU = &u
 	add("token(U-without-optionals: profile not in the register,k1)", mkTok(&uFew, f.k1), false)
+	// a genuinely signed token whose protected header lists a private parameter as critical (and carries it); whether
+	// that is taken is not this property's business (a fresh Evidence says), what is left behind when it is not is
+	critProt := mcbor.Encode(mcbor.M(mcbor.U(1), mcbor.I(-7), mcbor.U(2), mcbor.A(mcbor.I(-70000)), mcbor.I(-70000), mcbor.U(1)))
+	critTok := envelope(critProt, nil, vA.payload, rawSign(f.k1, "ES256", critProt, vA.payload))
+	add("token(A,k1)-with-crit-naming-a-private-parameter", critTok, (&psatoken.Evidence{}).UnmarshalCOSE(append([]byte{}, critTok...)) == nil)
 	nullPayload := []byte{0xf6}
 	add("signed-by-k1-null-payload", envelope(vA.prot, nil, nullPayload, rawSign(f.k1, "ES256", vA.prot, nullPayload)), false)
 	return f
